@@ -17,6 +17,15 @@
 (*            covar_root_decomposition = False) or small) vs Lanczos       *)
 (*   detach   detach_test_caches                                           *)
 (*   skipvar  skip_posterior_variances: zero covariance                    *)
+(*   sw       one of the global switches that select NO algorithm and      *)
+(*            promise no change of accuracy (Switches below: debug off,    *)
+(*            memory_efficient, trace_mode, fast_pred_samples,             *)
+(*            verbose_linalg, deterministic_probes, skip_logdet_forward,   *)
+(*            use_toeplitz off) or "none": path and meaning do not depend  *)
+(*            on it (SwitchIrrelevant), so every cell is replayed under    *)
+(*            some of them and must return the same conditional.           *)
+(* Every replayed cell makes TWO predictions on the same model (different  *)
+(* test inputs): the denotation does not depend on what was asked before.  *)
 (* The DENOTATION of the output does not depend on the path: it is the     *)
 (* Gaussian conditional (LinAlg.tla CondMean / CondCov), except that       *)
 (* skipvar replaces the covariance by zero.  TLC enumerates every cell and *)
@@ -44,16 +53,52 @@
 (* that precision.  A knob that is silently not honoured (for instance     *)
 (* eval_cg_tolerance being overridden by the ambient cg_tolerance) shows   *)
 (* as an accuracy failure of the cells that tighten it alone.              *)
+(*                                                                         *)
+(* Part "history": a model is asked several times, under changing          *)
+(* switches.  The state that survives a prediction is the kernel OBJECT    *)
+(* (its active_dims field is cleared and restored around every evaluation  *)
+(* of a lazily evaluated kernel tensor), the lazily evaluated tensors      *)
+(* (input columns fixed at creation, call-time keyword arguments carried   *)
+(* along through slicing) and the cached train-train block.  The machine   *)
+(* below transcribes Kernel.__call__, LazyEvaluatedKernelTensor            *)
+(* (_getitem, evaluate_kernel), ExactGP.__call__ and                       *)
+(* HeteroskedasticNoise.forward (which predicts with its noise model under *)
+(* debug(False)).  Property OnePrior: in EVERY prediction of EVERY history *)
+(* the three blocks Kxx (cached), Kx*, K** are the model's declared prior: *)
+(* the columns its kernel was constructed with and the keywords its        *)
+(* forward passes, conditioned on the model's CURRENT training data        *)
+(* (set_train_data between predictions).  Deliberately broken variants     *)
+(* (restore only under debug; slicing drops the keywords; a targets-only   *)
+(* set_train_data keeps the strategy) must be rejected by TLC.  The replay *)
+(* walks each history through real models of the class (active_dims on the *)
+(* top-level kernel / only on parts of a sum or product / nowhere; a       *)
+(* keyword-consuming kernel and mean; kernel of the model or of the noise  *)
+(* model of a HeteroskedasticNoise likelihood) and compares EVERY          *)
+(* prediction with the conditional written out by hand.                    *)
 (***************************************************************************)
 EXTENDS LinAlg, TLC
 
-CONSTANTS Part, Instances, MaxOff
+CONSTANTS Part, Instances, MaxOff,
+          HistLen, HistKw, HistSites,        \* part "history": length bound and the slice of the model lattice of this run
+          RestoreAlways, SliceKeepsParams,   \* TRUE = the current code; FALSE = deliberately broken variants
+          SetDataClears                      \* which set_train_data steps drop the prediction strategy (current code: both)
 
 VARIABLES c, out     \* out: the exact expectation handed to the replay ("lin" instances)
 vars == <<c, out>>
 
 \* ============================== lattice =========================================================
-Cells == [lazy : BOOLEAN, eager : BOOLEAN, chol : BOOLEAN, fpv : BOOLEAN, cholroot : BOOLEAN, detach : BOOLEAN, skipvar : BOOLEAN]
+\* global switches that are not about numerics and select no algorithm of the posterior
+\*   debug-off             settings.debug(False): input / shape checks skipped
+\*   memory-efficient      settings.memory_efficient(True) (gpytorch's and linear_operator's flag)
+\*   trace-mode            settings.trace_mode(True): kernels computed without custom autograd functions
+\*   fast-pred-samples     settings.fast_pred_samples(True): sampling only (and the interpolated strategy)
+\*   verbose-linalg        settings.verbose_linalg(True): logging
+\*   deterministic-probes  settings.deterministic_probes(True), skip-logdet-forward  settings.skip_logdet_forward(True): log-determinants only, none at eval
+\*   no-toeplitz           settings.use_toeplitz(False): grid kernels only
+Switches == {"debug-off", "memory-efficient", "trace-mode", "fast-pred-samples", "verbose-linalg", "deterministic-probes", "skip-logdet-forward", "no-toeplitz"}
+SwitchChoice == Switches \cup {"none"}
+
+Cells == [lazy : BOOLEAN, eager : BOOLEAN, chol : BOOLEAN, fpv : BOOLEAN, cholroot : BOOLEAN, detach : BOOLEAN, skipvar : BOOLEAN, sw : SwitchChoice]
 
 PathOf(s) ==
   [split |-> IF s.eager THEN "dense-slices" ELSE "lazy-slices",
@@ -66,7 +111,9 @@ PathOf(s) ==
 MeaningOf(s) == [mean |-> "conditional-mean", cov |-> IF s.skipvar THEN "zero" ELSE "conditional-covariance"]
 
 \* cells whose covariance path is irrelevant collapse to the same path (no spurious distinctions)
-LatticeOK == Part = "lattice" => (c.skipvar => PathOf(c).covar = "zero") /\ (~c.skipvar => PathOf(c).covar # "zero")
+\* a switch selects nothing: same path, same meaning
+SwitchIrrelevant(s) == \A w \in SwitchChoice : PathOf([s EXCEPT !.sw = w]) = PathOf(s) /\ MeaningOf([s EXCEPT !.sw = w]) = MeaningOf(s)
+LatticeOK == Part = "lattice" => (c.skipvar => PathOf(c).covar = "zero") /\ (~c.skipvar => PathOf(c).covar # "zero") /\ SwitchIrrelevant(c)
 
 \* ============================== knobs ===========================================================
 \* path selectors (full product):
@@ -178,11 +225,80 @@ AlgebraOK ==
     /\ IsPSD(PostCov(c))
     /\ IsPSD(MSub(Kss(c), PostCov(c)))                     \* conditioning never adds uncertainty
 
+\* ============================== history =========================================================
+\* model lattice of this part:
+\*   ad    where active_dims sits: nowhere / on the top-level kernel module (a leaf kernel, or a ScaleKernel, which copies its base kernel's
+\*         active_dims) / only on parts of a sum or product (the top-level module has none; the parts are called eagerly inside)
+\*   kw    call-time keyword arguments for kernel and mean: none / passed by the model's forward / passed by the caller through model(x, **kw)
+\*   site  whose kernel is tracked: the model's own ("covar") or the kernel of the noise model of a HeteroskedasticNoise likelihood ("noise")
+HModels == {m \in [ad : {"none", "top", "inner"}, kw : HistKw, site : HistSites] : m.site = "noise" => m.kw = "none"}
+\* lazily evaluated kernel, the test ROWS of the lazy joint covariance sliced off, evaluated, then split densely (joint size <=
+\* max_eager_kernel_size) / lazily evaluated kernel, both test blocks sliced off the LAZY joint covariance / lazily_evaluate_kernels(False):
+\* Kernel.__call__ computes the dense joint covariance at once, no lazily evaluated tensor exists
+HPaths == {"lazy-dense", "lazy-slices", "evaluated"}
+
+\* the prior the model declares: a block is described by the input columns it was computed on and the keywords it was computed with
+Declared(m) == [cols |-> IF m.ad = "top" THEN "active" ELSE "all", params |-> IF m.kw = "none" THEN "none" ELSE "passed"]
+
+\* Kernel.__call__: the inputs are restricted to the columns the kernel OBJECT declares at that moment; the keywords are remembered
+Create(m, kad) == [cols |-> IF m.ad = "top" /\ kad = "declared" THEN "active" ELSE "all", params |-> Declared(m).params]
+\* LazyEvaluatedKernelTensor._getitem: same kernel, same columns, same keywords
+SliceOf(t) == [t EXCEPT !.params = IF SliceKeepsParams THEN t.params ELSE "none"]
+\* LazyEvaluatedKernelTensor.evaluate_kernel: kernel.active_dims := None; call; restore
+AfterEval(kad, dbg) == IF RestoreAlways \/ dbg THEN kad ELSE "none"
+
+\* one posterior-mode call of the GP that owns the tracked kernel (dbg: is settings.debug on while it runs; dv: the version of the
+\* model's training data its prediction strategy - mean cache (Kxx+S)^-1 (y - mx) - was built from)
+Tracked(s, dbg, tag, dv) ==
+  LET xx    == IF s.cache = <<>> THEN Create(s.m, s.kad) ELSE s.cache[1]      \* train-train block: created with the prediction strategy, then cached
+      joint == Create(s.m, s.kad)                                              \* forward([train; test]) of THIS call
+      blk   == IF s.p = "evaluated" THEN joint ELSE SliceOf(joint)           \* both lazy paths index the lazy tensor before it is evaluated
+  IN [s EXCEPT !.cache = <<xx>>,
+               !.kad = IF s.p = "evaluated" THEN s.kad ELSE AfterEval(s.kad, dbg),
+               !.obs = Append(s.obs, [step |-> tag, xx |-> xx, xs |-> blk, ss |-> blk, data |-> dv, cur |-> s.ver])]
+
+DataSteps == {"set-targets", "set-data"}     \* model.set_train_data(targets = y'), model.set_train_data(inputs = X', targets = y')
+Quiet == {"refresh"} \cup DataSteps            \* steps without an observation
+
+HStep(s, a) ==
+  IF a = "refresh"                        \* model.train(); model.eval(): every prediction strategy is dropped (the kernel objects stay)
+  THEN [s EXCEPT !.cache = <<>>, !.outer = FALSE, !.hist = Append(@, a)]
+  ELSE IF a \in DataSteps                 \* new training data of the MODEL: its prediction strategy is dropped, whichever part of the data changed
+  THEN [s EXCEPT !.ver = @ + 1, !.hist = Append(@, a),
+                 !.outer = IF a \in SetDataClears THEN FALSE ELSE @,
+                 !.cache = IF a \in SetDataClears /\ s.m.site = "covar" THEN <<>> ELSE @]      \* the noise model keeps its own data and strategy
+  ELSE LET n  == Len(s.hist) + 1
+           dv == IF s.outer THEN s.cver ELSE s.ver
+           s1 == IF s.m.site = "covar" THEN Tracked(s, a # "debug-off", n, dv)
+                 \* HeteroskedasticNoise.forward runs its noise model under debug(False): at the training inputs when the outer strategy is
+                 \* built (S of the training data, cached there), at the test inputs for likelihood(posterior, test inputs)
+                 ELSE Tracked(IF s.outer THEN s ELSE Tracked(s, FALSE, n, dv), FALSE, n, dv)
+       IN [s1 EXCEPT !.outer = TRUE, !.cver = dv, !.hist = Append(@, a)]
+
+HInit == c \in {[m |-> m, p |-> p, kad |-> "declared", cache |-> <<>>, outer |-> FALSE, ver |-> 0, cver |-> 0, hist |-> <<>>, obs |-> <<>>] : m \in HModels, p \in HPaths}
+Expect(s) == [k \in 1..Len(s.obs) |-> Declared(s.m)]
+Predict(a) == /\ Len(c.hist) < HistLen
+              /\ c' = HStep(c, a)
+              /\ out' = Expect(c')
+QuietStep(a) == /\ Len(c.hist) < HistLen /\ c.hist # <<>> /\ c.hist[Len(c.hist)] \notin Quiet
+                /\ c' = HStep(c, a)
+                /\ out' = Expect(c')
+HNext == (\E a \in SwitchChoice : Predict(a)) \/ (\E a \in Quiet : QuietStep(a))
+
+\* every block of every prediction is the declared prior, conditioned on the CURRENT training data - also in the prediction under default
+\* settings that closes the history (a switch must not leave anything behind).  The test inputs do not enter the machine ("at any test
+\* inputs"): the replay draws fresh ones of a different size for every prediction and closes every fourth history at the training inputs
+OnePriorAt(s) == \A k \in 1..Len(s.obs) : /\ s.obs[k].xx = Declared(s.m) /\ s.obs[k].xs = Declared(s.m) /\ s.obs[k].ss = Declared(s.m)
+                                          /\ s.obs[k].data = s.obs[k].cur
+HistoryOK == Part = "history" => OnePriorAt(c) /\ OnePriorAt(HStep(c, "none")) /\ out = Expect(c)
+\* the kernel object is as constructed whenever control is back at the caller
+KernelRestored == Part = "history" => c.kad = "declared"
+
 \* for the replay of "lin" instances: exact posterior mean / covariance / marginal covariance
 Expected(i) == [mean |-> PostMean(i), cov |-> PostCov(i), marg |-> Marginal(i)]
 
-Init == /\ IF Part = "lattice" THEN c \in Cells ELSE IF Part = "knobs" THEN c \in KnobCells ELSE c \in Instances
+Init == /\ IF Part = "lattice" THEN c \in Cells ELSE IF Part = "knobs" THEN c \in KnobCells ELSE IF Part = "history" THEN HInit ELSE c \in Instances
         /\ out = IF Part = "knobs" THEN Promise(c) ELSE IF Part = "algebra" /\ c.kind = "lin" THEN Expected(c) ELSE IF Part = "lattice" THEN PathOf(c) ELSE <<>>
-Next == UNCHANGED vars
+Next == IF Part = "history" THEN HNext ELSE UNCHANGED vars
 Spec == Init /\ [][Next]_vars
 =============================================================================
